@@ -54,6 +54,14 @@ where
     }
 }
 
+/// Fold the sign of `v` in the lower bit (as zigzag encoding does).
+///
+/// The result needs as many bytes (as unsigned) as `v` needs as a two's complement signed integer,
+/// whatever is the sign of `v`.
+fn sign_fold(v: i64) -> u64 {
+    ((v << 1) ^ (v >> 63)) as u64
+}
+
 #[derive(Default, Debug)]
 pub enum ValueCounter<T> {
     #[default]
@@ -96,7 +104,8 @@ pub enum Property<PN: PropertyName> {
     },
     SignedInt {
         counter: ValueCounter<i64>,
-        size: PropertySize<i64>,
+        /// Size is computed on sign folded values (see [sign_fold])
+        size: PropertySize<u64>,
         name: PN,
     },
     Array {
@@ -242,11 +251,11 @@ impl<PN: PropertyName> Property<PN> {
             } => match entry.value(name).as_ref() {
                 Value::Signed(value) => {
                     counter.process(*value);
-                    size.process(*value);
+                    size.process(sign_fold(*value));
                 }
                 Value::SignedWord(value) => {
                     counter.process(value.get());
-                    size.process(value.get());
+                    size.process(sign_fold(value.get()));
                 }
                 _ => {
                     panic!("Value type doesn't correspond to property");
